@@ -62,6 +62,8 @@ class SRun:
 
             async def aclose(self):
                 run.src_closed += 1
+                if opts.get("aclose_raises"):
+                    raise gqlmini.Boom("closing the source failed")
 
         def sub_resolver(root, info, **args):
             def produce():
@@ -210,7 +212,8 @@ def _chunk(jobs):
             out.append({"error": f"{type(e).__name__}: {e}", "query": text})
             continue
         opts = {"creation": rng.choice(["ok"] * 8 + ["raise", "noniter"]), "source_fails": rng.random() < 0.3,
-                "gate_source": rng.random() < 0.6, "gate_subscribe": rng.random() < 0.3, "p_gate": rng.choice([0.0, 0.3, 0.7])}
+                "gate_source": rng.random() < 0.6, "gate_subscribe": rng.random() < 0.3, "p_gate": rng.choice([0.0, 0.3, 0.7]),
+                "aclose_raises": rng.random() < 0.25}
         results, exhaustive = explore(case, sd, opts, 40 if tier == "quick" else 300, rng)
         for sched, r in results:
             meta = {"seed": sd, "query": text, "variables": gqlmini.render_vars(case), "options": opts, "n_events": len(case["events"]),
